@@ -139,7 +139,11 @@ Z22 == A(<<<<0, 3>>, <<0, -1>>>>, <<1, 1>>, 2)
 F23 == {A(<<<<1, 0, -1>>, <<2, 1, 0>>>>, <<0, 1>>, 3)}
 F33 == {A(<<<<1, 2, 0>>, <<0, 1, -1>>, <<3, 0, 1>>>>, <<1, 0, -1>>, 3)}
 F11 == {A(<<<<-3>>>>, <<2>>, 1)}
-AllF == F22 \cup F12 \cup F21 \cup F32 \cup {Z22} \cup F23 \cup F33 \cup F11
+\* thorough tier (NP >= 1): more shapes and magnitudes (1 x 3, 3 x 1, 4 x 2, negative and larger entries, a permutation, a projection)
+FX == {A(<<<<2, -3, 5>>>>, <<-4>>, 3), A(<<<<1>>, <<0>>, <<-7>>>>, <<3, -3, 0>>, 1), A(<<<<1, 2>>, <<-3, 4>>, <<5, -6>>, <<0, 0>>>>, <<1, -1, 2, 0>>, 2),
+       A(<<<<0, 1, 0>>, <<0, 0, 1>>, <<1, 0, 0>>>>, <<0, 0, 0>>, 3), A(<<<<1, 0, 0>>, <<0, 1, 0>>>>, <<0, 0>>, 3), A(<<<<-9, 7>>, <<11, -13>>>>, <<17, -19>>, 2),
+       A(<<<<6, 0>>, <<0, 0>>>>, <<0, 5>>, 2)}
+AllF == F22 \cup F12 \cup F21 \cup F32 \cup {Z22} \cup F23 \cup F33 \cup F11 \cup (IF NP >= 1 THEN FX ELSE {})
 \* dividend / divisor pairs with exact quotients and no zero divisor entries
 DivPairs == {<<A(<<<<4, -6>>, <<2, 8>>>>, <<6, -4>>, 2), A(<<<<2, 3>>, <<-1, 4>>>>, <<3, -2>>, 2)>>,
              <<A(<<<<7, -5>>, <<3, 8>>>>, <<6, -7>>, 2), A(<<<<2, 3>>, <<-2, 3>>>>, <<4, -2>>, 2)>>}
